@@ -13,7 +13,12 @@ from visions.types.string import String
 from visions.types.uuid import UUID
 
 
+def _uuid_or_missing(value):
+    return value if pd.isna(value) else uuid.UUID(value)
+
+
 @UUID.register_relationship(String, pd.Series)
+@series_handle_nulls
 def uuid_is_string(series: pd.Series, state: dict) -> bool:
     def f(s):
         return pandas_apply(s, uuid.UUID)
@@ -23,7 +28,7 @@ def uuid_is_string(series: pd.Series, state: dict) -> bool:
 
 @UUID.register_transformer(String, pd.Series)
 def uuid_to_string(series: pd.Series, state: dict) -> pd.Series:
-    return pandas_apply(series, uuid.UUID)
+    return pandas_apply(series, _uuid_or_missing)
 
 
 @UUID.contains_op.register
